@@ -332,6 +332,19 @@ def run(chk, tier, seed, replay):
                                                                              "Add", "Sub", "Bit", "Not", "Neg", "Sum", "Product", "From:", "Into:", "Display:attr")):
             unin = re.sub(r"pub (i32|u8)\b", "pub core::convert::Infallible", decl_text, count=1)
             variants.append((key + ":uninhabited", unin))
+    # the same declarations GENERATED BY A macro_rules! MACRO, their primitive type names passed in as `$t:tt` fragments: the
+    # tokens of one item then come from two hygiene contexts (macro body / macro caller); identifiers the expansion
+    # introduces for itself must all live in one of them
+    for key, decl_text, obs_ in CASES:
+        toks = []
+
+        def sub(m):
+            toks.append(m.group(0))
+            return f"$t{len(toks) - 1}"
+        body = re.sub(r"(?<![\w\"#{:])\b(i8|i16|i32|i64|u8|u16|u32|u64|bool|f32|f64)\b(?![\w\"}!(])", sub, decl_text)
+        if toks and "$" not in decl_text and '"' not in "".join(re.findall(r"\$t\d+[^,;)}\]]*\"", body)):
+            params = " ".join(f"$t{n}:tt" for n in range(len(toks)))
+            variants.append((key + ":macro_tt", f"macro_rules! gen_item {{ ({params}) => {{ {body} }} }}\ngen_item!({' '.join(toks)});"))
     # named-field / variant forms with a #[deprecated] member for the derives whose expansions name the member
     NAMED = {"Add": "+", "Sub": "-", "BitAnd": "&", "BitOr": "|", "BitXor": "^"}
     for tr in list(NAMED) + ["AddAssign", "SubAssign", "Not", "Neg", "Sum", "Constructor", "Into", "From"]:
